@@ -1,1 +1,203 @@
-From FileIO Require Import Pwrite FdTable Raw TiffFail SideBySide Hal.
+(* Properties_C16.v -- C16: storage I/O failures are contained and reported; only owned descriptors are used.
+
+   "If creating or writing a file fails at any point, or the device is configured but never started, a storage device
+    neither crashes, recurses without bound nor hangs; it reports a write failure by leaving the running state no later
+    than the end of the failing append, so the runtime stops the stream.  Over its whole life it writes to and closes
+    only descriptors it opened itself, and closes each exactly once."
+
+   Quantification.  [k] ranges over the four storage kinds (KRaw, KTiff, KSbs = tiff-json, KTrash); [h] over ALL finite
+   histories of HAL calls on one device (Hal.op: set with any uri / metadata length, start, append of any packet, stop,
+   in any order and any number: open/close without start, repeated start/stop, start twice, append or stop when idle,
+   close while running) interleaved with the rest of the process opening and closing descriptors of its own
+   (OEnvOpen / OEnvClose); the create script [cs] and the write script [ws] give the operating system's answer to the
+   n-th open (succeed / open fails / the flock that follows fails) and to the n-th pwrite (any count, or an error), so
+   EVERY fault index, transient or persistent, and every short-write pattern is covered; [env_fds] is any set of
+   descriptors already open in the process.  [life] = device open, the history, storage_close (stop + destroy).
+   Induction over histories and over packets: no bound on any length.
+
+   The model is the code WITH the repairs fixes/02 (raw), 03, 04 (tiff) and 05 (tiff-json; in /repo since a3ee066).
+   Tiff::write_ -> stop -> terminate_ifd_list -> write_ is recursion on a fuel argument whose exhaustion is the explicit
+   outcome [Diverges]; the theorems hold for EVERY fuel >= 4 (the depth actually reached is at most 4:
+   write_, stop, write_, stop-that-returns-at-once), the extracted oracle runs with FUEL = 64.
+   [disciplined rs]: the runtime never reconfigures a RUNNING device (no `set` between a successful start and the stop;
+   property C08's subject).  Without it `start` after `set` while running opens a second file over the first for every
+   kind -- the device protocol, not an I/O failure.  Only C16_owned_fds / C16_closed_once need it.
+
+   This file contains statements only; every proof is [exact <lemma of C16Proofs.v>]. *)
+From Coq Require Import String.
+From Coq Require Import List Arith NArith Bool.
+From FileIO Require Import Pwrite FdTable Raw TiffFail SideBySide Hal Spec C16Proofs.
+Import ListNotations.
+Local Open Scope nat_scope.
+Local Open Scope list_scope.
+
+(* ---------------------------------------------------------------------------------------------------------------
+   C16_terminates.  No life of a device -- any kind, any history (disciplined or not), any operating-system state and
+   scripts -- reaches Diverges: every call returns, the write-error path is re-entered at most once. *)
+Theorem C16_terminates :
+  forall fuel k h o, 4 <= fuel -> life fuel fixed k h o <> Diverges.
+Proof. exact life_never_diverges. Qed.
+Print Assumptions C16_terminates.
+
+(* ... and so does every single HAL call, from ANY device state (reachable or not) *)
+Theorem C16_terminates_every_call :
+  forall fuel x d o, 4 <= fuel -> step fuel fixed x d o <> Diverges.
+Proof. exact step_never_diverges. Qed.
+Print Assumptions C16_terminates_every_call.
+
+(* ---------------------------------------------------------------------------------------------------------------
+   C16_reports.  [nfail] counts the file_create / file_write / writability-probe calls that returned 0.  A start or an
+   append inside which one of them failed answers Device_Err, and the state of the device after that very call is not
+   Running (storage.c:189-207 then makes the runtime stop the stream) -- from ANY device and operating-system state. *)
+Theorem C16_reports :
+  forall fuel x d o d1 o1 st, 4 <= fuel ->
+    step fuel fixed x d o = Ret (d1, o1, st) ->
+    x = OStart \/ (exists p, x = OAppend p) ->
+    nfail o1 <> nfail o ->
+    st = Err /\ get_state d1 <> Running.
+Proof. exact failure_is_reported. Qed.
+Print Assumptions C16_reports.
+
+(* ---------------------------------------------------------------------------------------------------------------
+   C16_owned_fds.  Every flock, pwrite and close the device issues during its whole life targets a descriptor number
+   that the device holds at that moment: it has opened it (an EOpen event of the device's own) once more often than it
+   has closed it.  In particular never -1, never a descriptor of the rest of the process (0, 1, 2, ...), never a number
+   it has already closed and somebody else may have been given since. *)
+Theorem C16_owned_fds :
+  forall fuel k h env_fds cs ws rs o', 4 <= fuel -> NoDup env_fds ->
+    life fuel fixed k h (os_init env_fds cs ws) = Ret (rs, o') -> disciplined rs = true ->
+    forall t1 e t2 fdarg, trace o' = t1 ++ e :: t2 -> targets e = Some fdarg ->
+    exists fd, fdarg = Some fd /\ held fd t1.
+Proof. exact owned_fds. Qed.
+Print Assumptions C16_owned_fds.
+
+(* ---------------------------------------------------------------------------------------------------------------
+   C16_closed_once.  After destroy every descriptor number has been closed as often as it was opened -- with
+   C16_owned_fds (each close happens while the number is held) each opened descriptor is closed exactly once --,
+   no table entry belongs to the device any more (nothing leaks), and every descriptor of the rest of the process
+   (those open at the start and those opened since and not closed by their owner) is still open. *)
+Theorem C16_closed_once :
+  forall fuel k h env_fds cs ws rs o', 4 <= fuel -> NoDup env_fds ->
+    life fuel fixed k h (os_init env_fds cs ws) = Ret (rs, o') -> disciplined rs = true ->
+    (forall fd, count_ev (opens_of fd) (trace o') = count_ev (closes_of fd) (trace o')) /\
+    (forall fd p, lookup fd (tbl o') <> Some (mkEnt Dev p)) /\
+    (forall fd, In fd (keep o' ++ envs o') -> exists p, lookup fd (tbl o') = Some (mkEnt Env p)).
+Proof. exact closed_once. Qed.
+Print Assumptions C16_closed_once.
+
+(* the executable form of the two: the descriptor ledger (FdTable.ledger; it is what the extracted oracle prints and
+   the check compares with its own ledger over the real system-call log) accepts the whole log and ends empty *)
+Theorem C16_ledger :
+  forall fuel k h env_fds cs ws rs o', 4 <= fuel -> NoDup env_fds ->
+    life fuel fixed k h (os_init env_fds cs ws) = Ret (rs, o') -> disciplined rs = true ->
+    ledger [] (trace o') = Some [].
+Proof. exact life_ledger. Qed.
+Print Assumptions C16_ledger.
+
+(* the fuel-free description of the two re-entrant functions the termination argument rests on *)
+Theorem C16_write_error_path :
+  forall fuel len t o, 4 <= fuel ->
+    t_write_ fuel fixed len t o = Ret (twrite_spec len t o) /\ t_stop fuel fixed t o = Ret (tstop_spec t o).
+Proof. exact write_error_path. Qed.
+Print Assumptions C16_write_error_path.
+
+(* ===============================================================================================================
+   Non-vacuity: reachable, non-trivial lives that meet the hypotheses (faults included). *)
+Definition pk (n : nat) (fr : list frame) : packet := mkPkt (repeat 1%N n) fr.
+Definition persistent_from (n : nat) (k : nat) : wresp := if k <? n then WFull else WErr.   (* disk full from call n on *)
+Definition once_at (n : nat) (k : nat) : wresp := if k =? n then WErr else WFull.           (* transient *)
+Definition os0 (ws : nat -> wresp) : os := os_init [0; 1; 2] (fun _ => COk) ws.
+
+Definition h_tiff : list op :=
+  [OSet "file://x.tif" 0; OStart; OAppend (pk 8 [(16, (60, 50)); (8, (60, 50))]); OAppend (pk 4 [(8, (60, 50))]); OStop].
+
+(* tiff, every write fails from the 5th on: the append reports Err / Armed, the file is closed once, the final write of
+   stop() fails too and does not re-enter; the next append is refused by the HAL *)
+Example tiff_persistent_failure :
+  exists o', life FUEL fixed KTiff h_tiff (os0 (persistent_from 4)) =
+               Ret ([(true, Ok, Armed); (true, Ok, Running); (true, Err, Armed); (true, Err, Armed); (true, Ok, Armed)], o') /\
+    trace o' = [EOpen "x.tif" (Some 3); EClose (Some 3) true; EOpen "x.tif" (Some 3); ELock 3 true;
+                EWrite (Some 3) 0 16 (Some 16); EWrite (Some 3) 0 336 (Some 336); EWrite (Some 3) 0 16 (Some 16);
+                EWrite (Some 3) 0 60 (Some 60); EWrite (Some 3) 0 336 None; EWrite (Some 3) 0 8 None;
+                EClose (Some 3) true] /\
+    nfail o' = 2 /\ ledger [] (trace o') = Some [].
+Proof. eexists. split; [vm_compute; reflexivity|]. vm_compute. auto. Qed.
+
+(* the hypotheses of C16_reports at a reachable state: the third call of h_tiff is an append inside which a write fails *)
+Example reports_reachable :
+  exists rs d o d1 o1,
+    run FUEL fixed (firstn 2 h_tiff) (dev_init KTiff) (os0 (persistent_from 4)) = Ret (rs, d, o) /\
+    get_state d = Running /\
+    step FUEL fixed (nth 2 h_tiff OStop) d o = Ret (d1, o1, Err) /\ nfail o = 0 /\ nfail o1 = 2 /\ get_state d1 = Armed.
+Proof. eexists _, _, _, _, _. split; [vm_compute; reflexivity|]. split; [reflexivity|]. split; [vm_compute; reflexivity|]. vm_compute. auto. Qed.
+
+(* raw: configured, never started; and a failed append followed by somebody else opening a file before the stop *)
+Definition h_raw : list op := [OSet "a.raw" 0; OStart; OAppend (pk 3 []); OEnvOpen; OStop].
+Example raw_lives :
+  (exists o', life FUEL fixed KRaw [OSet "a.raw" 0] (os0 (fun _ => WFull)) = Ret ([(true, Ok, Armed)], o') /\
+              trace o' = [EOpen "a.raw" (Some 3); EClose (Some 3) true]) /\
+  (exists o', life FUEL fixed KRaw h_raw (os0 (persistent_from 0)) =
+                Ret ([(true, Ok, Armed); (true, Ok, Running); (true, Err, Armed); (true, Ok, Armed); (true, Ok, Armed)], o') /\
+              trace o' = [EOpen "a.raw" (Some 3); EClose (Some 3) true; EOpen "a.raw" (Some 3); ELock 3 true;
+                          EWrite (Some 3) 0 3 None; EClose (Some 3) true; EEnvOpen 3] /\
+              fds_of o' = [3; 0; 1; 2]).
+Proof. split; eexists; (split; [vm_compute; reflexivity|]); vm_compute; auto. Qed.
+
+(* tiff-json: metadata.json is written and closed, data.tif is terminated and closed by stop *)
+Definition h_sbs : list op := [OSet "d" 7; OStart; OAppend (pk 8 [(16, (60, 50))]); OStop].
+Example sbs_life :
+  exists rs o', life FUEL fixed KSbs h_sbs (os0 (fun _ => WFull)) = Ret (rs, o') /\ disciplined rs = true /\
+    trace o' = [EOpen "d/metadata.json" (Some 3); ELock 3 true; EWrite (Some 3) 0 7 (Some 7); EClose (Some 3) true;
+                EOpen "d/data.tif" (Some 3); EClose (Some 3) true; EOpen "d/data.tif" (Some 3); ELock 3 true;
+                EWrite (Some 3) 0 16 (Some 16); EWrite (Some 3) 0 336 (Some 336); EWrite (Some 3) 0 16 (Some 16);
+                EWrite (Some 3) 0 60 (Some 60); EWrite (Some 3) 0 8 (Some 8); EClose (Some 3) true].
+Proof. eexists _, _. split; [vm_compute; reflexivity|]. vm_compute. auto. Qed.
+
+(* [held]: at the moment of the first pwrite of tiff_persistent_failure the device holds descriptor 3 *)
+Example held_example :
+  held 3 [EOpen "x.tif" (Some 3); EClose (Some 3) true; EOpen "x.tif" (Some 3); ELock 3 true].
+Proof. vm_compute. reflexivity. Qed.
+
+(* ===============================================================================================================
+   Sensitivity: with a repair switched off the model produces exactly the behaviour the theorems exclude.  These are
+   the defects confirmed on the unrepaired code; corpus/C16/*.json replays them on the real code. *)
+Definition without_d4 : variant := mkVariant true false true true true.
+Definition without_d5a : variant := mkVariant true true false true true.
+Definition without_d5b : variant := mkVariant true true true false true.
+Definition without_d6 : variant := mkVariant true true true true false.
+
+(* D4: raw_stop closes whatever number is in file.fid -- descriptor 0 of a device that was never started ... *)
+Example D4_unrepaired_closes_stdin :
+  exists rs o', life FUEL without_d4 KRaw [OSet "a.raw" 0] (os0 (fun _ => WFull)) = Ret (rs, o') /\
+    trace o' = [EOpen "a.raw" (Some 3); EClose (Some 3) true; EClose (Some 0) true] /\
+    ledger [] (trace o') = None /\ fds_of o' = [1; 2].
+Proof. eexists _, _. split; [vm_compute; reflexivity|]. vm_compute. auto. Qed.
+
+(* ... and, after a failed append, the stale number 3 that another part of the process has been given in between *)
+Example D4_unrepaired_closes_foreign :
+  exists rs o', life FUEL without_d4 KRaw h_raw (os0 (persistent_from 0)) = Ret (rs, o') /\
+    trace o' = [EOpen "a.raw" (Some 3); EClose (Some 3) true; EOpen "a.raw" (Some 3); ELock 3 true;
+                EWrite (Some 3) 0 3 None; EClose (Some 3) true; EEnvOpen 3; EClose (Some 3) true] /\
+    ledger [] (trace o') = None /\ fds_of o' = [0; 1; 2].
+Proof. eexists _, _. split; [vm_compute; reflexivity|]. vm_compute. auto. Qed.
+
+(* D5a: a persistent write failure makes write_ / stop / terminate_ifd_list call each other until the fuel (the stack)
+   is gone *)
+Example D5a_unrepaired_diverges :
+  life FUEL without_d5a KTiff h_tiff (os0 (persistent_from 4)) = Diverges /\
+  life 1000 without_d5a KTiff h_tiff (os0 (persistent_from 4)) = Diverges.
+Proof. split; vm_compute; reflexivity. Qed.
+
+(* D5b: a transient write failure closes the file, yet the append answers Ok / Running and the following calls write
+   to and close the stale descriptor *)
+Example D5b_unrepaired_not_reported :
+  exists o', life FUEL without_d5b KTiff h_tiff (os0 (once_at 4)) =
+               Ret ([(true, Ok, Armed); (true, Ok, Running); (true, Ok, Running); (true, Ok, Running); (true, Ok, Armed)], o') /\
+    nfail o' = 8 /\ ledger [] (trace o') = None.
+Proof. eexists. split; [vm_compute; reflexivity|]. vm_compute. auto. Qed.
+
+(* D6: the inner tiff writer never becomes Running, so its stop does nothing: data.tif is never terminated nor closed *)
+Example D6_unrepaired_leaks :
+  exists rs o', life FUEL without_d6 KSbs h_sbs (os0 (fun _ => WFull)) = Ret (rs, o') /\
+    ledger [] (trace o') = Some [3] /\ fds_of o' = [3; 0; 1; 2].
+Proof. eexists _, _. split; [vm_compute; reflexivity|]. vm_compute. auto. Qed.
